@@ -266,11 +266,18 @@ func (m *mappers) ToCharGroup(r comb.Result) (comb.Result, bool) {
 
 	items := r2.Val.(comb.List)
 
+	// Characters outside of the ASCII table are kept separately, in order of appearance.
 	charMap := make([]bool, len(parser.RuneClasses["ASCII"].Runes()))
+	others, seen := []rune{}, map[rune]bool{}
 	for _, r := range items {
 		if chars, ok := r.Bag[bagKeyChars].([]rune); ok {
 			for _, c := range chars {
-				charMap[c] = true
+				if 0 <= c && int(c) < len(charMap) {
+					charMap[c] = true
+				} else if !seen[c] {
+					seen[c] = true
+					others = append(others, c)
+				}
 			}
 		}
 	}
@@ -279,6 +286,12 @@ func (m *mappers) ToCharGroup(r comb.Result) (comb.Result, bool) {
 	for i, marked := range charMap {
 		if (!neg && marked) || (neg && !marked) {
 			nfa.Add(0, auto.Symbol(rune(i)), []auto.State{1})
+		}
+	}
+
+	if !neg {
+		for _, c := range others {
+			nfa.Add(0, auto.Symbol(c), []auto.State{1})
 		}
 	}
 
